@@ -539,6 +539,10 @@ theorem enough_of_readableN (σ : Store) (n : Nat) (v : Value) (h : readableN σ
   apply String.toList_injective
   rw [display_datumN σ n v f' h hf, display_datumN σ n v _ h (Nat.le_refl _)]
 
+theorem Enough.mono {σ : Store} {f g : Nat} {v : Value} (h : Enough σ f v) (hfg : f ≤ g) :
+    Enough σ g v :=
+  fun f' hf' => (h f' (Nat.le_trans hfg hf')).trans (h g hfg).symm
+
 /-! ## a sample: `(1 -1/2 #\a (x . y) #(#t ()))` with its vector in cell 1 of the store -/
 namespace Samples
 
@@ -555,6 +559,20 @@ def datum : Datum :=
     .vec [.prim (.bool true) none, .nil none] none]
 
 def text : String := "(1 -1/2 #\\a (x . y) #(#t ()))"
+
+/-- the store after the sample has been read back into it: a fresh immutable cell 2 -/
+def store2 : Store :=
+  { store with vecs := store.vecs.push { mutable := false, items := [.bool true, .nil] } }
+
+/-- the copy of the sample that reading it back produces -/
+def value2 : Value :=
+  Value.ofList [.num (.int 1), .num (.rat (-1) 2), .char 'a', .pair (.sym "x") (.sym "y"), .vec 2]
+
+theorem value_equal_value2 : EqualV store store2 value value2 :=
+  .pair (.num _) (.pair (.num _) (.pair (.char _) (.pair (.pair (.sym _) (.sym _))
+    (.pair (.vec (c₁ := { mutable := true, items := [.bool true, .nil] })
+      (c₂ := { mutable := false, items := [.bool true, .nil] }) rfl rfl
+      (.cons (.bool _) (.cons .nil .nil))) .nil))))
 
 end Samples
 
@@ -1223,7 +1241,7 @@ theorem lvlCount_le (σ : Store) (k : Nat) : lvlCount σ k ≤ σ.vecs.size := b
   simpa [lvlCount] using this
 
 theorem lvlCount_mono (σ : Store) (k : Nat) : lvlCount σ k ≤ lvlCount σ (k + 1) :=
-  List.countP_mono_left (fun id _ h => readableN_succ σ k _ h)
+  List.countP_mono_left (fun _ _ h => readableN_succ σ k _ h)
 
 theorem readableN_vec_oob (σ : Store) (k id : Nat) (h : σ.vecs.size ≤ id) :
     readableN σ k (.vec id) = false := by
